@@ -18,6 +18,7 @@
   as a stored matrix): `J + K = Id`, `J : J = J`, `K : K = K`, `J : K = 0`, `M = 3/2 K`, through the traced
   product `st2tost2 * st2tost2`.
 -/
+import TfelVerif.Common.Model
 import TfelVerif.C02.Lemmas
 import TfelVerif.C02.Gen3ST
 import TfelVerif.C02.Gen3TT
@@ -34,7 +35,7 @@ theorem N3_st_J_add_K (h3 : (3:K) ≠ 0) :
     List.zipWith (· + ·) (Gen.N3_st_J_all c c3 fn) (Gen.N3_st_K_all c c3 fn) = Gen.N3_st_Id_all c c3 fn := by
   simp only [gen_simp, List.zipWith_cons_cons, List.zipWith_nil_right, List.cons.injEq, and_true]
   repeat' apply And.intro
-  all_goals (first | rfl | ring1 | (field_simp; ring1) | norm_num)
+  all_goals (first | rfl | ring1 | (field_simp; done) | (field_simp; ring1))
 
 /-- `J : J = J`, `K : K = K`, `J : K = 0`: the traced product of the traced projectors -/
 theorem N3_st_projectors (h3 : (3:K) ≠ 0) :
@@ -48,14 +49,14 @@ theorem N3_st_projectors (h3 : (3:K) ≠ 0) :
   · t4_unfold_zd
     (try simp only [List.replicate, List.cons.injEq, and_true])
     repeat' apply And.intro
-    all_goals (first | rfl | ring1 | (field_simp; ring1) | norm_num)
+    all_goals (first | rfl | ring1 | (field_simp; done) | (field_simp; ring1))
 
 /-- `M = 3/2 K` -/
 theorem N3_st_M_eq (h2 : (2:K) ≠ 0) (h3 : (3:K) ≠ 0) :
     Gen.N3_st_M_all c c3 fn = (Gen.N3_st_K_all c c3 fn).map (fun x => 3 / 2 * x) := by
   simp only [gen_simp, List.map_cons, List.map_nil, List.cons.injEq, and_true]
   repeat' apply And.intro
-  all_goals (first | rfl | ring1 | (field_simp; ring1) | norm_num)
+  all_goals (first | rfl | ring1 | (field_simp; done) | (field_simp; ring1))
 
 /-- `IxI / 3 + K = Id` for `t2tot2` -/
 theorem N3_tt_J_add_K (h3 : (3:K) ≠ 0) :
@@ -63,7 +64,7 @@ theorem N3_tt_J_add_K (h3 : (3:K) ≠ 0) :
       = Gen.N3_tt_Id_all c c3 fn := by
   simp only [gen_simp, List.zipWith_cons_cons, List.zipWith_nil_right, List.cons.injEq, and_true]
   repeat' apply And.intro
-  all_goals (first | rfl | ring1 | (field_simp; ring1) | norm_num)
+  all_goals (first | rfl | ring1 | (field_simp; done) | (field_simp; ring1))
 
 /-! non-vacuity of the standing hypotheses: `TfelVerif.mandel_hypotheses_satisfiable` (Common/Model.lean)
 gives a field (ℝ, `c = √2`) with `c * c = 2`, `2 ≠ 0`; `3 ≠ 0`, `k ≠ 0`, `det A ≠ 0` hold there e.g. for -/
